@@ -11,6 +11,7 @@ import H263V.Spec.AnnexJ
 import H263V.Gen.Tables
 import H263V.Model.Show
 import H263V.Spec.GenCases
+import H263V.DriverUnits
 
 open H263V H263V.Util H263V.Show H263V.State
 
@@ -86,7 +87,11 @@ def runP (full : Bool) (o : Nat) (ops : String) : String := Id.run do
   return (if full then "PX " else "P ") ++ " | ".intercalate outs.toList
 
 def runLine (line : String) : String :=
-  match line.trimAscii.toString.splitOn " " with
+  let toks := line.trimAscii.toString.splitOn " "
+  match DriverUnits.run toks with
+  | some r => r
+  | none =>
+  match toks with
   | ["K", a, b, c, d, s] =>
     match a.toInt?, b.toInt?, c.toInt?, d.toInt?, s.toInt? with
     | some a, some b, some c, some d, some s =>
